@@ -916,3 +916,41 @@ def oracle_c01(case):
         if left and not any(n in (real["steps"][i - 1]["state"]["vars"] if i else real["init"]["vars"]) for n in left):
             out.append(fail(i, f"loop variable(s) {left} still exist as story variables after {op['op']}"))
     return out
+
+
+# ------------------------------------------------------------------------------------ rendering order (C01 / C08)
+
+_WASNOW = re.compile(r"was (-?\d+)\n((?:(?!was -?\d+\n).)*?)now (-?\d+) (-?\d+)\n", re.S)
+
+
+def oracle_wasnow(case):
+    """the generator's probe `was {v}` / a block that adds k to v (an @if: once; an @for over [1, 2]: twice) / `now {v} {v + 0}`:
+    what is shown after the block is the value the block left - expressions, conditions and jumps after a block see its effects"""
+    real = case["real"]
+    if real.get("status") != "ok":
+        return []
+    story = case["story"]
+    ks = set()
+    for p_ in story["passages"].values():
+        toks = p_.get("content", [])
+        for j, t in enumerate(toks):
+            blob = json.dumps(t)
+            if t.get("type") in ("conditional", "for_loop"):
+                for m in re.finditer(r'"code": "(\w+) = \1 \+ (\d+)"', blob):
+                    ks.add(int(m.group(2)) * (2 if t.get("type") == "for_loop" else 1))
+                    if any(q.get("name") == m.group(1) for p2 in story["passages"].values() for q in p2.get("params", [])):
+                        return []      # the counted variable is also a parameter somewhere: scopes decide what is shown (C07's matter)
+    if not ks:
+        return []
+    out = []
+    for i, (op, step) in enumerate(zip(case["ops"], real["steps"])):
+        resp = step["resp"]
+        if op["op"] in ("choose", "goto") and "out" in resp:
+            for m in _WASNOW.finditer(resp["out"]["content"]):
+                was, now1, now2 = int(m.group(1)), int(m.group(3)), int(m.group(4))
+                if "{ERROR" in m.group(2):
+                    continue
+                if now1 != now2 or (now1 - was) not in ks:
+                    out.append(fail(i, f"the passage shows 'was {was}', runs a block that adds to the variable, then shows 'now {now1} {now2}': "
+                                       f"the value after the block must be {was} + one of {sorted(ks)} (what is rendered after a block sees what the block did)"))
+    return out
